@@ -59,43 +59,49 @@ type c08Fam struct {
 	base     []byte
 
 	mu    sync.Mutex
-	cache map[[3]int]bpv7.Bundle
+	cache map[[4]int]bpv7.Bundle
 }
 
 func (f *c08Fam) id() string { return fmt.Sprintf("%d.%d.%d", f.src, f.ts, f.seq) }
 
 // c08Bundle builds the whole bundle (frag == nil) or the fragment [off, off+n) with the given total.
-func (f *c08Fam) bundle(frag *[3]int) bpv7.Bundle {
-	key := [3]int{-1, -1, -1}
+func (f *c08Fam) bundle(frag *[3]int) bpv7.Bundle { return f.bundleV(frag, 0) }
+
+// bundleV: variant 1 carries an additional hop count block (same id, other bytes: what is left after
+// Core.receive removed a block is variant 0).
+func (f *c08Fam) bundleV(frag *[3]int, variant int) bpv7.Bundle {
+	key := [4]int{-1, -1, -1, variant}
 	if frag != nil {
-		key = *frag
+		key = [4]int{frag[0], frag[1], frag[2], variant}
 	}
 	f.mu.Lock()
 	defer f.mu.Unlock()
 	if b, ok := f.cache[key]; ok {
 		return b
 	}
-	b := f.build(frag)
+	b := f.build(frag, variant)
 	if f.cache == nil {
-		f.cache = map[[3]int]bpv7.Bundle{}
+		f.cache = map[[4]int]bpv7.Bundle{}
 	}
 	f.cache[key] = b
 	return b
 }
 
-func (f *c08Fam) build(frag *[3]int) bpv7.Bundle {
+func (f *c08Fam) build(frag *[3]int, variant int) bpv7.Bundle {
 	payload := f.base
 	if frag != nil {
 		payload = f.base[frag[0] : frag[0]+frag[1]]
 	}
-	b, err := bpv7.Builder().
+	bldr := bpv7.Builder().
 		CRC(bpv7.CRC32).
 		Source(fmt.Sprintf("dtn://n%d/", f.src)).
 		Destination("dtn://dst/").
 		CreationTimestampNow().
-		Lifetime(int(f.lifetime)).
-		PayloadBlock(payload).
-		Build()
+		Lifetime(int(f.lifetime))
+	if variant == 1 {
+		bldr = bldr.HopCountBlock(17)
+	}
+	b, err := bldr.PayloadBlock(payload).Build()
 	if err != nil {
 		panic(err)
 	}
@@ -142,6 +148,7 @@ type c08Seq struct {
 	n     int
 	r     *c08Rng
 	nowMs int64
+	given []bpv7.Bundle // bundles pushed in this sequence
 }
 
 func (q *c08Seq) emit(format string, a ...interface{}) {
@@ -269,11 +276,11 @@ func (q *c08Seq) dump() string {
 				}
 			}()
 		} else if readable && complete == "1" {
-			// only sets without a fragment contained in another one (D3 is C10's subject)
+			// only sets with one common total length (mixed totals are C10's subject)
 			sort.SliceStable(ivs, func(i, j int) bool { return ivs[i].off < ivs[j].off })
 			clean := true
 			for i := range ivs {
-				if ivs[i].total != ivs[0].total || (i > 0 && (ivs[i].off <= ivs[i-1].off || ivs[i].end <= ivs[i-1].end)) {
+				if ivs[i].total != ivs[0].total {
 					clean = false
 				}
 			}
@@ -316,6 +323,11 @@ func (q *c08Seq) dump() string {
 	ents, _ := os.ReadDir(filepath.Join(q.dir, dirBundle))
 	for _, e := range ents {
 		label, ok := q.names[e.Name()]
+		if base := strings.TrimSuffix(e.Name(), ".tmp"); !ok && base != e.Name() {
+			if label, ok = q.names[base]; ok {
+				label += "!tmp"
+			}
+		}
 		if !ok {
 			label = "?" + e.Name()
 		}
@@ -372,6 +384,7 @@ func (q *c08Seq) opLine(desc, res string) {
 }
 
 func (q *c08Seq) doPush(b bpv7.Bundle) {
+	q.given = append(q.given, b)
 	desc := q.pushDesc(b)
 	res := "panic"
 	func() {
@@ -390,6 +403,21 @@ func (q *c08Seq) doUpdate(f *c08Fam, pending bool, expMs int64, props map[string
 		bi.Properties = props
 		res = c08Res(q.store.Update(bi))
 	}
+	q.opLine(desc, res)
+}
+
+func (q *c08Seq) replaceDesc(b bpv7.Bundle) string {
+	return "replace" + strings.TrimPrefix(q.pushDesc(b), "push")
+}
+
+// doReplace calls Store.ReplaceBundle (what Core.receive does after it removed a block).
+func (q *c08Seq) doReplace(b bpv7.Bundle) {
+	desc := q.replaceDesc(b)
+	res := "panic"
+	func() {
+		defer func() { _ = recover() }()
+		res = c08Res(q.store.ReplaceBundle(b))
+	}()
 	q.opLine(desc, res)
 }
 
@@ -471,7 +499,7 @@ func (q *c08Seq) newFam(expired bool, total int) *c08Fam {
 // randFrag picks a fragment of f: mostly cuts on a grid (so that sets complete), sometimes arbitrary.
 func (q *c08Seq) randFrag(f *c08Fam) *[3]int {
 	t := len(f.base)
-	switch q.r.intn(10) {
+	switch q.r.intn(12) {
 	case 0: // arbitrary, possibly overlapping / contained
 		off := q.r.intn(t)
 		n := 1 + q.r.intn(t-off)
@@ -479,6 +507,18 @@ func (q *c08Seq) randFrag(f *c08Fam) *[3]int {
 	case 1: // same offset as a grid fragment, another total
 		g := t / 3
 		return &[3]int{g * q.r.intn(3), g, t + 5}
+	case 2, 3, 10, 11: // same offset and total as a grid fragment, shorter or longer (another MTU)
+		k := 2 + len(f.base)%2
+		g := t / k
+		i := q.r.intn(k)
+		n := g/2 + q.r.intn(g)
+		if g*i+n > t {
+			n = t - g*i
+		}
+		if n < 1 {
+			n = 1
+		}
+		return &[3]int{g * i, n, t}
 	default:
 		k := 2 + len(f.base)%2 // 2 or 3 pieces
 		g := t / k
@@ -517,9 +557,9 @@ func (q *c08Seq) randomOp(reopens *int) {
 	}
 	switch k := q.r.intn(100); {
 	case k < 14:
-		q.doPush(f.bundle(nil))
+		q.doPush(f.bundleV(nil, q.r.intn(2)))
 	case k < 52:
-		q.doPush(f.bundle(q.randFrag(f)))
+		q.doPush(f.bundleV(q.randFrag(f), q.r.intn(4)/3))
 	case k < 66:
 		q.doUpdate(f, q.r.intn(2) == 0, q.randExp(), q.randProps())
 	case k < 76:
@@ -528,13 +568,31 @@ func (q *c08Seq) randomOp(reopens *int) {
 		q.doSweep()
 	case k < 90:
 		q.doQuery(f)
-	case k < 93:
+	case k < 91:
 		if q.r.intn(2) == 0 {
 			q.doPushFail(f.bundle(nil))
 		} else {
 			q.doPushFail(f.bundle(q.randFrag(f)))
 		}
-	case k < 96 && *reopens > 0:
+	case k < 95:
+		// ReplaceBundle: mostly for something that was pushed (the other variant: a block removed /
+		// added), sometimes for something unknown
+		if len(q.given) > 0 && q.r.intn(4) != 0 {
+			g := q.given[q.r.intn(len(q.given))]
+			gf := q.famOf(g)
+			var frag *[3]int
+			if g.PrimaryBlock.HasFragmentation() {
+				frag = &[3]int{int(g.PrimaryBlock.FragmentOffset), c08PayLen(g), int(g.PrimaryBlock.TotalDataLength)}
+			}
+			variant := 1
+			if _, err := g.ExtensionBlock(bpv7.ExtBlockTypeHopCountBlock); err == nil {
+				variant = 0
+			}
+			q.doReplace(gf.bundleV(frag, variant))
+		} else {
+			q.doReplace(f.bundleV(q.randFrag(f), q.r.intn(2)))
+		}
+	case k < 97 && *reopens > 0:
 		*reopens--
 		q.doReopen()
 	default:
@@ -584,12 +642,18 @@ func (q *c08Seq) crashOp(point string, nth int, kind string, b bpv7.Bundle) {
 		desc = q.pushDesc(b)
 	case "delete":
 		desc = "delete:" + q.famOf(b).id()
+	case "replace":
+		desc = q.replaceDesc(b)
 	case "sweep":
 		desc = fmt.Sprintf("sweep:%d", time.Now().UnixNano()/1000000)
 	}
 	cmd := exec.Command(os.Args[0], "-test.run=^TestVerifC08Child$")
 	f := q.famOf(b)
-	spec := fmt.Sprintf("%d,%d,%d,%d,%s,%s,%d", f.src, f.ts, f.seq, f.lifetime, hex.EncodeToString(f.base), c08FragStr(b), c08PayLen(b))
+	variant := 0
+	if _, err := b.ExtensionBlock(bpv7.ExtBlockTypeHopCountBlock); err == nil {
+		variant = 1
+	}
+	spec := fmt.Sprintf("%d,%d,%d,%d,%s,%s,%d,%d", f.src, f.ts, f.seq, f.lifetime, hex.EncodeToString(f.base), c08FragStr(b), c08PayLen(b), variant)
 	cmd.Env = append(os.Environ(), "VERIF_C08_CHILD_DIR="+q.dir, "VERIF_C08_CHILD_OP="+kind,
 		"VERIF_C08_CHILD_BUNDLE="+spec, fmt.Sprintf("VERIF_CRASH=%s:%d", point, nth), "VERIF_OUT=")
 	out, err := cmd.CombinedOutput()
@@ -615,7 +679,7 @@ func TestVerifC08Child(t *testing.T) {
 	log.SetLevel(log.ErrorLevel)
 	// the bundle is rebuilt from its parameters (ParseBundle would reject one whose lifetime is exceeded)
 	ps := strings.Split(os.Getenv("VERIF_C08_CHILD_BUNDLE"), ",")
-	if len(ps) != 7 {
+	if len(ps) != 8 {
 		fmt.Println("child: bad bundle spec")
 		os.Exit(3)
 	}
@@ -633,7 +697,8 @@ func TestVerifC08Child(t *testing.T) {
 		n, _ := strconv.Atoi(ps[6])
 		frag = &[3]int{off, n, tot}
 	}
-	b := fam.bundle(frag)
+	variant, _ := strconv.Atoi(ps[7])
+	b := fam.bundleV(frag, variant)
 	var s *Store
 	var err error
 	for i := 0; i < 100; i++ {
@@ -651,6 +716,8 @@ func TestVerifC08Child(t *testing.T) {
 		err = s.Push(b)
 	case "delete":
 		err = s.Delete(b.ID())
+	case "replace":
+		err = s.ReplaceBundle(b)
 	case "sweep":
 		s.DeleteExpired()
 	}
@@ -704,7 +771,24 @@ func (q *c08Seq) crashScenario(variant int) {
 	grid := c08Grid(f, 3)
 	var target bpv7.Bundle
 	followFrag := grid[2]
-	switch variant % 12 {
+	switch variant % 14 {
+	case 12: // a longer fragment for a stored offset, killed between the temporary file and the rename
+		short := &[3]int{grid[0][0], grid[0][1] / 2, grid[0][2]}
+		q.doPush(f.bundle(short))
+		q.doPush(f.bundle(grid[1]))
+		target = f.bundle(grid[0])
+		q.crashOp("replace:tmp-written", 1, "push", target)
+		followFrag = short // the shorter one is ignored afterwards
+	case 13: // ReplaceBundle of a stored whole bundle / fragment, killed at the same point
+		if q.r.intn(2) == 0 {
+			q.doPush(f.bundleV(nil, 1))
+			target = f.bundle(nil)
+		} else {
+			q.doPush(f.bundleV(grid[0], 1))
+			target = f.bundle(grid[0])
+		}
+		q.crashOp("replace:tmp-written", 1, "replace", target)
+		q.doReplace(target)
 	case 0: // kill while inserting a new whole bundle
 		target = f.bundle(nil)
 		q.crashOp("push:new:file-written", 1, "push", target)
@@ -746,9 +830,9 @@ func (q *c08Seq) crashScenario(variant int) {
 		}
 		target = f.bundle(grid[0])
 		if q.r.intn(2) == 0 {
-			q.crashOp("delete:file-removed", 1+variant%12-8, "delete", target)
+			q.crashOp("delete:file-removed", 1+variant%14-8, "delete", target)
 		} else {
-			q.crashOp("delete:before-remove", 1+variant%12-8, "delete", target)
+			q.crashOp("delete:before-remove", 1+variant%14-8, "delete", target)
 		}
 	case 11: // expiry sweep of one expired record, killed inside its Delete
 		q.doSweep() // nothing else may be expired
@@ -962,7 +1046,7 @@ func TestVerifC08(t *testing.T) {
 			jobs = append(jobs, job{sid, run})
 		}
 	}
-	// quick: 8 random sequences, every crash scenario once (12, four per store); thorough: 120 / 25x
+	// quick: 8 random sequences, every crash scenario once (14, five per store); thorough: 120 / 25x
 	nRandom, nCrashSeq := 8, 3
 	if thorough {
 		nRandom, nCrashSeq = 120, 75
@@ -972,7 +1056,10 @@ func TestVerifC08(t *testing.T) {
 		add(sid, func() []string { return c08RunRandom(scratch, sid, seed, n) })
 	}
 	for i := 0; i < nCrashSeq; i++ {
-		sid, vs := fmt.Sprintf("c%d", i), []int{4 * i, 4*i + 1, 4*i + 2, 4*i + 3}
+		sid, vs := fmt.Sprintf("c%d", i), []int{5 * i, 5*i + 1, 5*i + 2, 5*i + 3, 5*i + 4}
+		if !thorough && i == 2 {
+			vs = vs[:4] // 14 scenarios
+		}
 		add(sid, func() []string { return c08RunCrash(scratch, sid, seed, vs) })
 	}
 	results := make([][]string, len(jobs))
